@@ -89,7 +89,7 @@ def geobox(rng: random.Random, fam: Optional[str] = None, crs="EPSG:3857", shp: 
     from odc.geo.geobox import GeoBox
 
     A, fam = affine(rng, fam, **kw)
-    return GeoBox(shp or shape(rng), A, crs), fam
+    return warm_view(GeoBox(shp or shape(rng), A, crs)), fam
 
 
 def window_geobox(rng: random.Random, entry, npix: Tuple[int, int] = (32, 32), extent_deg: Optional[float] = None, fam: str = "north-up"):
@@ -117,11 +117,72 @@ def window_geobox(rng: random.Random, entry, npix: Tuple[int, int] = (32, 32), e
         A = Affine(r, 0, x0, 0, r, y0)
     else:
         raise ValueError(fam)
-    return GeoBox((ny, nx), A, crs), (lon, lat, ext)
+    return warm_view(GeoBox((ny, nx), A, crs)), (lon, lat, ext)
 
 
 def aff6(A) -> tuple:
     return tuple(A)[:6]
+
+
+WARM = {"views": 0, "plain": 0}
+
+
+def warm(g, full: bool = True) -> None:
+    """What code does with a raster before deriving another one from it: looks at it (fills whatever the object caches lazily)."""
+    fs = [lambda: g.extent, lambda: g.boundingbox, lambda: g.resolution, lambda: hash(g), lambda: g.alignment, lambda: g.dimensions]
+    if full:  # the expensive looks (projected outlines, coordinate arrays, reprs) for a fifth of the parents
+        fs += [lambda: g.geographic_extent, lambda: g.footprint("EPSG:4326", 2), lambda: repr(g), lambda: g.coordinates, lambda: g.center_pixel]
+    for f in fs:
+        try:
+            f()
+        except Exception:  # noqa: BLE001 - rotated boxes have no coordinates, boxes without CRS no geographic extent
+            pass
+
+
+def warm_view(g):
+    """The same GeoBox (identical shape, affine and CRS), but - for about a third of the boxes - obtained the way real code obtains one: as a resized view
+    (expand / crop / pad_wh / [:ny, :nx]) of another GeoBox that has already been looked at.  Whatever the parent cached about *itself* must not travel to the view.
+    The decision comes from a private RNG keyed by the box, so generator streams are unchanged.  VERIF_NO_WARM=1 switches it off (debugging)."""
+    import hashlib
+    import os
+
+    if os.environ.get("VERIF_NO_WARM"):
+        return g
+    try:
+        ny, nx = g.shape
+        r = random.Random(int.from_bytes(hashlib.blake2b(repr((aff6(g.affine), ny, nx, str(g.crs))).encode(), digest_size=8).digest(), "big"))
+        if r.random() >= 0.34 or ny < 1 or nx < 1:
+            WARM["plain"] += 1
+            return g
+        k, j = r.randint(1, 3), r.randint(1, 3)
+        how = r.choice(["expand", "crop", "pad_wh", "slice"])
+        full = r.random() < 0.2
+        if how in ("expand", "pad_wh") and (ny - k < 1 or nx - j < 1):
+            how = "crop"
+        if how == "expand":
+            parent = g.crop((ny - k, nx - j))
+            warm(parent, full)
+            out = parent.expand((ny, nx))
+        elif how == "pad_wh":
+            parent = g.crop((ny - k, nx - j))
+            warm(parent, full)
+            out = parent.pad_wh(nx, ny)
+        elif how == "crop":
+            parent = g.expand((ny + k, nx + j))
+            warm(parent, full)
+            out = parent.crop((ny, nx))
+        else:
+            parent = g.expand((ny + k, nx + j))
+            warm(parent, full)
+            out = parent[:ny, :nx]
+        if tuple(out.shape) != (ny, nx) or aff6(out.affine) != aff6(g.affine) or out.crs != g.crs or type(out) is not type(g):
+            WARM["plain"] += 1  # a view that is not what it should be is C02's business
+            return g
+        WARM["views"] += 1
+        return out
+    except Exception:  # noqa: BLE001
+        WARM["plain"] += 1
+        return g
 
 
 def gbox_desc(g) -> dict:
